@@ -285,6 +285,8 @@ def mixed_cases():
                 continue        # exact durations: the `exact` / `week` cases
             for d in DATES:
                 for t in TIMES:
+                    if t != "hms" and present not in MIX_QUICK:
+                        continue    # decimal-minute / decimal-hour points: covering subsets
                     out.append(Case(
                         "%s-%s+mixed:%s" % (d, t, present),
                         tp_case(d, t, _mixed_dur(present)),
